@@ -18,6 +18,10 @@ Definition res_eqb (a : outcome (str * list str)) (obs : option (str * list str)
   | _, _ => false
   end.
 (* (parts, named, linked, options, observed html result, observed raw-text result) *)
+(* (parts, options, observed markdown result) *)
+Definition chk_md (c : list (str * dpart) * api_opts * option (str * list str)) : bool :=
+  let '(parts, a, obs) := c in
+  res_eqb (convert_to_markdown (mkSource (package_of parts) false []) a) obs.
 Definition chk_api (c : list (str * dpart) * bool * list (str * img_src) * api_opts
                         * option (str * list str) * option (str * list str)) : bool :=
   let '(parts, named, linked, a, obs_html, obs_raw) := c in
@@ -97,3 +101,28 @@ def case_term(model_parts, named, linked, opts, html, raw):
     lk = T.lst(lambda kv: "(%s, %s)" % (T.s(kv[0]), "(ImgData %s)" % T.lst(T.n, list(kv[1][1])) if kv[1][0] == "data"
                                        else "(ImgError %s)" % T.s(kv[1][1])), sorted(linked.items()))
     return "(%s, %s, %s, %s, %s, %s)" % (B.parts_term(model_parts), T.b(named), lk, opts_term(opts), obs_term(html), obs_term(raw))
+
+
+MD_CASE_TYPE = "list (str * dpart) * api_opts * option (str * list str)"
+
+
+def run_markdown(docx_bytes, opts):
+    conv, _ = doclevel.make_converter(opts.get("conv", "data_uri"))
+    kw = {}
+    if opts.get("style_map") is not None:
+        kw["style_map"] = opts["style_map"]
+    for k in ("include_default_style_map", "include_embedded_style_map", "ignore_empty_paragraphs", "id_prefix"):
+        if k in opts and opts[k] is not None:
+            kw[k] = opts[k]
+    if conv is not None:
+        kw["convert_image"] = conv
+    try:
+        return mammoth.convert_to_markdown(io.BytesIO(docx_bytes), **kw)
+    except InvalidFileReferenceError:
+        raise
+    except Exception as e:
+        return e
+
+
+def md_case_term(model_parts, opts, md):
+    return "(%s, %s, %s)" % (B.parts_term(model_parts), opts_term(opts), obs_term(md))
